@@ -873,6 +873,19 @@ func verifLenIsHeaderPlusLength(p *PathAttribute) bool {
 //@   ensures p.Value.Is4() && lenFits(p.Flags, p.Length, 4) ==> len(result0) == attrLen(p.Flags, p.Length)
 //@   ensures p.Value.Is6() && lenFits(p.Flags, p.Length, 16) ==> len(result0) == attrLen(p.Flags, p.Length)
 
+// MP_REACH_NLRI: the Length a constructor puts in the attribute (the packers' budget, C11; Len() == octets of
+// Serialize, C04) counts the next-hop field the way Serialize writes it - for the VPN SAFI one 8-octet zero RD in
+// front of EVERY next hop, nothing for the FlowSpec SAFIs
+//@ props C04 C11
+//@ spec mpNHLen(safi uint8, nhOctets int, nhCount int) int = (safi == SAFI_FLOW_SPEC_VPN || safi == SAFI_FLOW_SPEC_UNICAST) ? 0 : nhOctets + (safi == SAFI_MPLS_VPN ? 8*nhCount : 0)
+//@ func NewPathAttributeMpReachNLRI
+//@   claims inv-init inv-keep
+//@   loop 0 invariant (pre(nhlen) == 16*len(nhs) || pre(nhlen) == 4*len(nhs)) && pre(l) == 5 + mpNHLen(safi, pre(nhlen), len(nhs))
+//@ func (*PathAttributeMpReachNLRI).Serialize
+//@   requires p != nil
+//@   claims at-call
+//@   at-call append(buf, uint8(nexthoplen)) requires nexthoplen == mpNHLen(safi, isNexthopIPv6 ? 16*len(nexthopAddrs) : 4*len(nexthopAddrs), len(nexthopAddrs))
+
 //@ props C12
 // from C12: which Cease subcodes end the session hard (RFC 8538): prefix limit, admin shutdown, peer
 // de-configured, hard reset - and admin reset only when configured so
